@@ -17,6 +17,7 @@ fields and the equality of two hashes). Two points:
    two pre-images); the repaired statements below (`…_at`) say so: the disjunct names the pair, so the statement has
    content for every `H`, and each implies the original.
 -/
+set_option autoImplicit false
 namespace Vacuity.C04
 open CertModel
 open CertHash (Bytes Collision u64be u64be_inj)
